@@ -837,13 +837,21 @@ func BigPacket(r *core.Rand) rtcp.Packet {
 		return &rp
 	case 5: // SR / RR with a large profile extension
 		e := r.Bytes(4 * r.Pick(16200, 16383, 16384, 30000, 65000))
+		if r.Chance(1, 3) {
+			// the encoding has exactly this many octets (262144 is the most the length field allows)
+			total := r.Pick(262144, 262144, 262140, 131072, 65536, 65540)
+			if r.Bool() {
+				return &rtcp.SenderReport{SSRC: r.B32(), NTPTime: r.B64(), Reports: []rtcp.ReceptionReport{Report(r)}, ProfileExtensions: r.Bytes(total - 28 - 24)}
+			}
+			return &rtcp.ReceiverReport{SSRC: r.B32(), Reports: []rtcp.ReceptionReport{Report(r), Report(r)}, ProfileExtensions: r.Bytes(total - 8 - 48)}
+		}
 		if r.Bool() {
 			return &rtcp.SenderReport{SSRC: r.B32(), NTPTime: r.B64(), Reports: []rtcp.ReceptionReport{Report(r)}, ProfileExtensions: e}
 		}
 		return &rtcp.ReceiverReport{SSRC: r.B32(), Reports: []rtcp.ReceptionReport{Report(r), Report(r)}, ProfileExtensions: e}
 	case 6: // FIR with thousands of entries
 		p := &rtcp.FullIntraRequest{SenderSSRC: r.B32(), MediaSSRC: r.B32()}
-		for i := r.Pick(8190, 8191, 8192, 20000); i > 0; i-- {
+		for i := r.Pick(8190, 8191, 8192, 20000, 32766); i > 0; i-- {
 			p.FIR = append(p.FIR, rtcp.FIREntry{SSRC: r.U32(), SequenceNumber: r.U8()})
 		}
 		return p
